@@ -2,6 +2,15 @@
   C20 — 2-D triangulation is a consistently wound Delaunay triangulation of the input.
   Theorems about the model `PolyVerif/Model/Delaunay.lean` of
   /repo/modeling/triangulation/bowyer_watson.go.
+
+  PARTIAL: the property's main claim — Bowyer–Watson with this finite super-triangle returns a non-overlapping,
+  empty-circumcircle triangulation for EVERY point set in general position — is NOT proved here; it is stated as
+  `def C20_full : Prop` and left open.  What is proved: the sign convention of the in-circle determinant, invariants of
+  the algorithm model (vertices, index range, winding — non-strict `orient ≤ 0`; strictness is decided per run by
+  `windingOk`), adequacy of the super-triangle, and the SOUNDNESS OF THE EXECUTABLE CHECKERS that the driver applies,
+  in exact arithmetic, to each output of the real implementation (sound per input, sampled over inputs).
+  `bw_vertices_are_inputs` and `vertices_check_sound` are definitional (the model builds the vertex list by the same
+  map the checker compares with).
 -/
 import PolyVerif.Model.Delaunay
 import Mathlib.Tactic
